@@ -305,7 +305,7 @@ theorem handlePlusLine_co {cfg : Cfg} {m m' : M} {l : L} {b : Bool} (nf : CONorm
     have hp0 : pend m = [] := by
       rcases pend_cases hp with h | ⟨h, _⟩
       · exact h
-      · simp [plusLineTest, headerLineTest_false inv h] at ht
+      · simp [plusLineTest, not_diffHeader_of_hh h] at ht
     simp only at e
     have hx : Same m (flushMP { m with plusFile := (parseDiffHeaderLine l.text (m.source = .gitDiff)).1,
                                         plusEvent := (parseDiffHeaderLine l.text (m.source = .gitDiff)).2,
